@@ -101,12 +101,33 @@ class Registry:
         self.model_classes = {}
         self.views = {}
         self.view_setters = {}
+        self.pending_refines = []
         dirs = contract_dirs or [os.path.join(VERIF_ROOT, "contracts")]
         for d in dirs:
             for p in sorted(glob.glob(os.path.join(d, "**", "*.py"), recursive=True)):
                 if os.path.basename(p).startswith("_"):
                     continue
                 self.load_contract_file(p)
+        for base_q, classes, ropts in self.pending_refines:
+            base = self.contracts.get(base_q)
+            if base is None:
+                raise ValueError(f"refines: no contract for {base_q}")
+            meth = base_q.rsplit(".", 1)[1]
+            for cq in classes:
+                import copy as _copy
+
+                c = _copy.copy(base)
+                c.target = cq + "." + meth
+                c.params = dict(base.params)
+                if "self" in c.params:
+                    c.params["self"] = "obj:" + cq
+                for k_, v_ in ropts.items():  # e.g. inline_calls=..., locals=... needed by the subclass body
+                    setattr(c, k_, v_)
+                c.key = c.target + "@iface"
+                c.assumed = False
+                if c.key in self.contracts:
+                    raise ValueError(f"duplicate contract for {c.key}")
+                self.contracts[c.key] = c
         self.spec_natives["seconds"] = lambda it, a, k: self.opaque_as_int(it, a[0].val if isinstance(a[0], VOpt) else a[0])
         def _keys_list(it, a, k):
             d = it.deref(a[0])
@@ -196,6 +217,12 @@ class Registry:
                 elif fn == "ext_base":
                     a, b = _lit(st.value.args[0]), _lit(st.value.args[1])
                     self.ext_bases.setdefault(a, []).append(b)
+                elif fn == "refines":
+                    # refines("pkg.Base.method", ["pkg.Sub1", ...]): the interface contract of
+                    # Base.method must also hold of each subclass' own body (behavioural subtyping,
+                    # checked mechanically as the variant contract  pkg.Sub.method@iface)
+                    self.pending_refines.append((_lit(st.value.args[0]), _lit(st.value.args[1]),
+                                                 {k.arg: _lit(k.value) for k in st.value.keywords}))
             elif isinstance(st, ast.ClassDef):
                 for d in st.decorator_list:
                     if isinstance(d, ast.Call) and isinstance(d.func, ast.Name) and d.func.id == "contract":
